@@ -41,8 +41,9 @@ func init() {
 			{Name: "graphs", Variant: "plain", N: core.Tiered(120, 3000), Run: c07Case, TimeoutS: 300},
 		},
 		RequireTags: func(string) []string {
-			return []string{"graph:empty-batch", "graph:fan-in", "graph:no-stored-inputs", "flags:split-outputs", "flags:final-states", "trace:writer-behind", "trace:checked"}
+			return []string{"graph:empty-batch", "graph:fan-in", "graph:no-stored-inputs", "flags:split-outputs", "flags:final-states"}
 		},
+		ExpectTags: func(string) []string { return []string{"trace:writer-behind", "trace:checked", "graph:long-series-fan-in>=3"} },
 	})
 }
 
